@@ -179,6 +179,7 @@ func (tmg *TCPMuxGroup) CloseListener(ln *TCPMuxGroupListener) {
 	}
 	if len(tmg.lns) == 0 {
 		close(tmg.acceptCh)
+		tmg.acceptCh = nil
 		tmg.tcpMuxLn.Close()
 		tmg.ctl.RemoveGroup(tmg.group)
 	}
